@@ -611,11 +611,11 @@ Qed.
 
 Lemma inc_upsert_edit_parents c s es :
   exists s1 t, i_upsert c s es = finish c true t s1
-               /\ graph_of s1 = graph_of (fold_left upd_over es s).
+               /\ graph_of s1 = graph_of (fold_left upd_over (latest_versions es) s).
 Proof.
-  unfold i_upsert. destruct (fold_left i_upsert_one es (s, [])) as [s1 t] eqn:E.
+  unfold i_upsert. destruct (fold_left i_upsert_one (latest_versions es) (s, [])) as [s1 t] eqn:E.
   exists s1, t. split; [reflexivity|].
-  pose proof (upsert_edit_same_graph es s s [] eq_refl) as H. rewrite E in H. cbn [fst] in H.
+  pose proof (upsert_edit_same_graph (latest_versions es) s s [] eq_refl) as H. rewrite E in H. cbn [fst] in H.
   symmetry; exact H.
 Qed.
 
